@@ -3,6 +3,7 @@ package rules
 import (
 	"go/constant"
 	"go/token"
+	"go/types"
 	"regexp"
 	"strings"
 
@@ -27,7 +28,7 @@ func checkC09(c *Ctx) {
 	r.Min("C09.membership", 7)
 	r.Min("C09.sorted", 4)
 	r.Min("C09.nonce", 2)
-	r.Min("C09.freshness-trigger", 4)
+	r.Min("C09.freshness-trigger", 6)
 
 	// ---- membership -------------------------------------------------------------------
 	var builder *ssa.Function
@@ -176,6 +177,7 @@ func checkC09(c *Ctx) {
 	c.checkObservedSetSorted()
 	// comparator
 	c.checkSignerComparator()
+	c.checkLatestQuery()
 
 	// ---- nonce ---------------------------------------------------------------------------------
 	c.checkCounter("C09.nonce", "LatestSignerSetTxNonceKey", live, roots, 0)
@@ -848,7 +850,6 @@ func isZeroValue(v ssa.Value) bool {
 	return false
 }
 
-
 // checkObservedSetSorted: either the handler sorts the reported members itself, or (i) ExternalSigners.Hash sorts
 // its own receiver, (ii) SignerSetTxExecutedEvent.Hash hashes the Members field itself, and (iii) the vote function
 // calls Hash on the event before it packs it.
@@ -940,4 +941,159 @@ func (c *Ctx) checkObservedSetSorted() {
 	}
 	r.Check(okI && okII && okIII, "C09.sorted", "observed", c.pos(lit), "the reported members are in canonical order when stored: hashing the claim sorts them in place before the claim is packed",
 		sprintf("the observed signer set is stored in the order the first reporter sent it: it is not sorted by the handler, and the implicit canonicalisation is broken (members hash sorts its own receiver=%v, claim hash hashes the Members field itself=%v, the vote function hashes the claim before packing it=%v); the contract's checkpoint check fails for a set served in another order", okI, okII, okIII))
+}
+
+// checkLatestQuery: what is served as "the latest signer set" is the set with the highest nonce: the first
+// element of a reverse iteration over the chain's signer sets, the set stored under the nonce counter, or the
+// result of a function that is one of these.
+func (c *Ctx) checkLatestQuery() {
+	p, r := c.P, c.R
+	var latestOK func(f *ssa.Function, depth int) (bool, string)
+	latestOK = func(f *ssa.Function, depth int) (bool, string) {
+		if f == nil || f.Blocks == nil || depth > 2 {
+			return false, "not analysable"
+		}
+		rev, fwd, next := false, false, false
+		for _, op := range p.StoreOps(f) {
+			if c.prefixName(op) != "OutgoingTxKey" {
+				continue
+			}
+			switch op.Op {
+			case "ReverseIterator":
+				rev = true
+			case "Iterator":
+				fwd = true
+			case "Get":
+				// the key's nonce component comes from the latest-nonce counter
+				for _, pt := range op.Key.Parts {
+					if pt.Kind != "u64" || pt.Val == nil {
+						continue
+					}
+					for _, vals := range p.PartLeaves(pt, nil, ana.PVOpt{Opaque: func(d ana.CalleeDesc) bool { return true }}).Vals {
+						for _, v := range vals {
+							if call, _ := ana.UnwrapCall(v); call != nil {
+								for _, callee := range p.Callees(call) {
+									if hasEff(c.Effects(callee), "store", "Get", "LatestSignerSetTxNonceKey") {
+										return true, "the set stored under the latest-nonce counter"
+									}
+								}
+							}
+						}
+					}
+				}
+			}
+		}
+		byCounter := false
+		ana.Calls(f, func(site ssa.CallInstruction, d ana.CalleeDesc) {
+			if d.Name == "Next" && d.Iface {
+				next = true
+			}
+			// a lookup helper handed a key whose nonce component is the latest-nonce counter
+			getter := false
+			for _, callee := range p.Callees(site) {
+				if hasEff(c.Effects(callee), "store", "Get", "OutgoingTxKey") {
+					getter = true
+				}
+			}
+			if !getter {
+				return
+			}
+			for _, a := range site.Common().Args {
+				if !isByteSliceType(a.Type()) {
+					continue
+				}
+				for _, pt := range p.KeyOf(a).Parts {
+					if pt.Kind != "u64" || pt.Val == nil {
+						continue
+					}
+					for _, vals := range p.PartLeaves(pt, nil, ana.PVOpt{Opaque: func(d ana.CalleeDesc) bool { return true }}).Vals {
+						for _, v := range vals {
+							if call, _ := ana.UnwrapCall(v); call != nil {
+								for _, callee := range p.Callees(call) {
+									if hasEff(c.Effects(callee), "store", "Get", "LatestSignerSetTxNonceKey") {
+										byCounter = true
+									}
+								}
+							}
+						}
+					}
+				}
+			}
+		})
+		if byCounter {
+			return true, "the set stored under the latest-nonce counter"
+		}
+		if rev && !fwd && !next {
+			return true, "the first element of a reverse iteration over the signer sets"
+		}
+		if fwd {
+			return false, "a forward iteration over the signer sets"
+		}
+		// derived from another function
+		res, why := false, "the result does not come from a reverse iteration's first element or the latest-nonce counter"
+		ana.Instrs(f, func(in ssa.Instruction) {
+			if res {
+				return
+			}
+			switch x := in.(type) {
+			case *ssa.IndexAddr:
+				// list[k] of a list produced by a reverse-iterating collector
+				call, _ := ana.UnwrapCall(x.X)
+				if call == nil {
+					return
+				}
+				for _, callee := range p.Callees(call) {
+					revColl := false
+					for g := range p.ReachCS(callee) {
+						for _, op := range p.StoreOps(g) {
+							if op.Op == "ReverseIterator" && c.prefixName(op) == "OutgoingTxKey" {
+								revColl = true
+							}
+						}
+					}
+					if !revColl {
+						continue
+					}
+					if isConstVal(x.Index, "0") {
+						res, why = true, "element 0 of a list collected in reverse nonce order"
+					} else {
+						why = "an element other than the first of a list collected in reverse nonce order (index " + p.Expr(x.Index, 0) + "): the oldest retained set is served as the latest"
+					}
+				}
+			case *ssa.Call:
+				if callee := x.Call.StaticCallee(); callee != nil && p.IsModule(callee) && callee != f && !p.L.IsGenerated(callee.Pos()) {
+					if n := ana.NamedOf(x.Type()); n != nil && n.Obj().Name() == "SignerSetTx" {
+						if ok, w := latestOK(callee, depth+1); ok {
+							res, why = true, w+" (through "+fname(callee)+")"
+						}
+					}
+				}
+			}
+		})
+		return res, why
+	}
+	n := 0
+	for _, f := range p.Funcs {
+		if f.Parent() != nil || !inPkg(f, "mhub2/keeper") || p.L.IsGenerated(f.Pos()) {
+			continue
+		}
+		if f.Name() != "LatestSignerSetTx" && f.Name() != "GetLatestSignerSetTx" {
+			continue
+		}
+		n++
+		ok, why := latestOK(f, 0)
+		r.Check(ok, "C09.freshness-trigger", "latest:"+fname(f), p.Pos(f.Pos()), "serves "+why, "what "+fname(f)+" serves as the latest signer set is "+why)
+	}
+	if n == 0 {
+		r.Undecided("C09.freshness-trigger", "latest", "-", "no LatestSignerSetTx / GetLatestSignerSetTx function found")
+	}
+}
+
+func isByteSliceType(t types.Type) bool {
+	sl, ok := t.Underlying().(*types.Slice)
+	if !ok {
+		return false
+	}
+	b, ok := sl.Elem().Underlying().(*types.Basic)
+	return ok && b.Kind() == types.Uint8
 }
